@@ -83,6 +83,8 @@ Judge(T, e, stopped) ==
   ELSE IF FirstObjClause(T, obs, 1, stopped) # "" THEN FirstObjClause(T, obs, 1, stopped)
   ELSE IF stopped THEN ""
   ELSE IF ToSet(obs.connected) # ConnectedObjs(T) THEN "XS_connected_servers"
+  \* peer selection is offered exactly the connected servers, each once (their order: ServerOrder.tla, C32)
+  ELSE IF ToSet(obs.psi) # ConnectedObjs(T) \/ Len(obs.psi) # Cardinality(ConnectedObjs(T)) THEN "XS_servers_for_psi"
   ELSE IF \E s \in Sids \cup {"unknown"} : obs.nick[s] # Nick(T, s) THEN "XS_nickname_for_serverid"
   ELSE IF \E s \in Sids \cup {"unknown"} : obs.stub_sid[s] # StubBySid(T, s) THEN "XS_stub_server_by_serverid"
   ELSE IF \E t \in Tubs : obs.stub_tub[t] # StubByTub(T, t) THEN "XS_stub_server_by_tubid"
